@@ -64,11 +64,13 @@ pub struct ConnCase {
     pub eof_fds: u16,
     /// C12: when to drop popped requests: 0 = at the end, 1 = immediately
     pub drop_mode: u8,
+    /// C12: hand descriptor number 0 to the library in this run (exclusive use of the descriptor table)
+    pub use_fd0: bool,
 }
 
 impl ConnCase {
     pub fn new(limit: Option<usize>, stream: Vec<u8>, scheds: Vec<Vec<SOp>>) -> Self {
-        ConnCase { limit, stream, scheds, eof: true, oneshot_max: None, fd_plan: vec![], eof_fds: 0, drop_mode: 0 }
+        ConnCase { limit, stream, scheds, eof: true, oneshot_max: None, fd_plan: vec![], eof_fds: 0, drop_mode: 0, use_fd0: false }
     }
     pub fn eff_limit(&self) -> usize {
         self.limit.unwrap_or(51200)
@@ -91,6 +93,7 @@ impl ConnCase {
             ("fd_plan", J::Arr(self.fd_plan.iter().map(|x| json::u(*x as usize)).collect())),
             ("eof_fds", json::u(self.eof_fds as usize)),
             ("drop_mode", json::u(self.drop_mode as usize)),
+            ("use_fd0", J::Bool(self.use_fd0)),
         ])
     }
     pub fn from_json(j: &J) -> Result<Self, String> {
@@ -111,6 +114,7 @@ impl ConnCase {
                 .unwrap_or_default(),
             eof_fds: j.get("eof_fds").and_then(|x| x.usize()).unwrap_or(0) as u16,
             drop_mode: j.get("drop_mode").and_then(|x| x.usize()).unwrap_or(0) as u8,
+            use_fd0: j.get("use_fd0").and_then(|x| x.bool()).unwrap_or(false),
         })
     }
 
@@ -193,6 +197,11 @@ impl ConnCase {
         if self.eof {
             let mut c = self.clone();
             c.eof = false;
+            out.push(c);
+        }
+        if self.use_fd0 {
+            let mut c = self.clone();
+            c.use_fd0 = false;
             out.push(c);
         }
         out
@@ -371,6 +380,18 @@ pub struct PlainInfo {
 /// Run one schedule, model-free: collect what the connection delivers up to the first
 /// parse error.
 pub fn run_plain(case: &ConnCase, sched: &[SOp], m: &ModelOut, st: &mut Stats) -> PlainInfo {
+    run_plain_mode(case, sched, m, st, 0)
+}
+
+/// `mode` varies what the owner of the connection does BETWEEN reads (none of which may
+/// influence what is delivered): bit 0 = write pending output (interim responses) after every
+/// read; bit 1 = pop parsed requests only at the very end; mode 3 additionally answers every
+/// popped request... (with bit 1 set nothing is popped before the end, so mode 3 = drain + late pop).
+/// Mode 5 = pop each read, enqueue a response per request and push it out with short writes.
+pub fn run_plain_mode(case: &ConnCase, sched: &[SOp], m: &ModelOut, st: &mut Stats, mode: u8) -> PlainInfo {
+    let drain_each = mode & 1 == 1;
+    let pop_late = mode & 2 == 2;
+    let answer = mode & 4 == 4;
     let mut conn = Conn::new(case.stream.clone(), case.limit);
     let len = case.stream.len();
     let mut cur = SchedCursor::new(sched);
@@ -388,7 +409,7 @@ pub fn run_plain(case: &ConnCase, sched: &[SOp], m: &ModelOut, st: &mut Stats) -
         let res = conn.try_read(op);
         st.lib_calls += 1;
         st.steps += 1;
-        let popped = conn.pop_all();
+        let popped = if pop_late { Vec::new() } else { conn.pop_all() };
         let pos = conn.pos();
         if !empty {
             data_reads += 1;
@@ -397,6 +418,24 @@ pub fn run_plain(case: &ConnCase, sched: &[SOp], m: &ModelOut, st: &mut Stats) -
         sig.u(structure.class(pos));
         sig.u(res.code());
         sig.u(popped.len() as u64);
+        if answer {
+            for _ in 0..popped.len() {
+                let (resp, _) = crate::obs::simple_response(1, 200, Some(b"ok"));
+                conn.c.enqueue_response(resp);
+            }
+            // a few short writes, like a socket under back-pressure
+            for _ in 0..3 {
+                if !conn.pending_write() {
+                    break;
+                }
+                let _ = conn.try_write(crate::simstream::WrOp::Accept(7));
+            }
+            st.probe("writes_interleaved_with_reads");
+        }
+        if drain_each && conn.pending_write() {
+            let _ = conn.drain_output();
+            st.probe("writes_interleaved_with_reads");
+        }
         for (o, _) in popped {
             obs.reqs.push(o);
         }
@@ -414,6 +453,12 @@ pub fn run_plain(case: &ConnCase, sched: &[SOp], m: &ModelOut, st: &mut Stats) -
                 break;
             }
         }
+    }
+    if pop_late {
+        for (o, _) in conn.pop_all() {
+            obs.reqs.push(o);
+        }
+        st.probe("requests_popped_late");
     }
     if obs.err.is_none() && obs.other.is_none() && case.eof && conn.remaining() == 0 {
         let res = conn.try_read(RdOp::Eof(0));
